@@ -8,7 +8,7 @@ import hashlib
 from .. import pestlang as P
 from .. import relang as R
 from ..core import AnalysisError, Check, Finding
-from ..repo import Repo
+from ..repo import Repo, qualname_of
 
 SCANNER = "src/pest/grammar/scanner.py"
 PARSER = "src/pest/grammar/parser.py"
@@ -94,8 +94,21 @@ def token_languages(check: Check, repo: Repo, rules: dict, consts: dict) -> None
         ob(const, rule, w1, w2, n)
     # tag: exactly one trailing look-ahead for the assignment operator
     a, looks = R.from_python(need("RE_TAG"))
-    ok = len(looks) == 1 and not looks[0].negate
-    check.oblige("TOKEN-LANG", f"{SCANNER}::RE_TAG", "RE_TAG looks ahead for the assignment operator" if ok else "RE_TAG has no look-ahead for '='", ok)
+    # node_tag = _{ tag_id ~ assignment_operator } is a normal rule: any trivia (comments included) may separate the
+    # two. A look-ahead on the tag pattern must therefore admit every `trivia* "="` continuation. (Block comments are
+    # taken without nesting here: a regular under-approximation of the continuations that must be admitted.)
+    trivia_then_assign, _ = R.from_python(r"(?:[ \t\r\n]|//[^\n]*\n|/\*(?:[^*]|\*+[^*/])*\*+/)*=")
+    must_admit = R.Lang.of(("cat", [trivia_then_assign, SIGMA]))
+    for la in looks:
+        if la.negate or la.lead:
+            raise AnalysisError("RE_TAG: look-around other than a trailing positive look-ahead")
+        w, n_ = R.witness(must_admit & ~R.Lang.of(("cat", [la.ast, SIGMA])))
+        check.count("product_states", n_)
+        sig = "RE_TAG's look-ahead refuses a continuation the meta-grammar allows between a tag and '='"
+        check.oblige("TOKEN-LANG", f"{SCANNER}::RE_TAG", "the look-ahead admits every trivia* '=' continuation" if w is None else sig, w is None, sample=True,
+                     finding=Finding("TOKEN-LANG", f"{SCANNER}::RE_TAG", sig, f"after a tag the text {w!r} is legal (node_tag is a normal rule: comments are trivia) but the look-ahead does not match it, so the tag is not recognised: `a = {{ #t /*c*/ = \"x\" }}` is a syntax error", {"witness": w}))
+    if not looks:
+        check.oblige("TOKEN-LANG", f"{SCANNER}::RE_TAG", "RE_TAG has no look-ahead: the assignment operator is checked by the caller", True)
     w1, w2, n = R.compare(R.Lang.of(a), R.Lang.of(pr.tr(rules["tag_id"][1])))
     ob("RE_TAG", "tag_id", w1, w2, n, " (look-ahead stripped)")
     # identifier: meta has !"PUSH"; the scanner tries RE_PUSH_LITERAL / RE_PUSH first
@@ -103,9 +116,29 @@ def token_languages(check: Check, repo: Repo, rules: dict, consts: dict) -> None
     if not (e[0] == "seq" and e[1][0] == ("neg", ("str", "PUSH"))):
         raise AnalysisError(f"{META}::identifier no longer starts with !\"PUSH\"")
     not_push = ~R.Lang.of(("cat", [R.lit("PUSH"), SIGMA]))
-    a, _ = R.from_python(need("RE_IDENTIFIER"))
-    w1, w2, n = R.compare(R.Lang.of(a) & not_push, R.Lang.of(pr.tr(("seq", e[1][1:]))) & not_push)
-    ob("RE_IDENTIFIER", "identifier", w1, w2, n, ' (modulo the !"PUSH" guard, which the dispatch order implements)')
+    a, ilooks = R.from_python(need("RE_IDENTIFIER"))
+    scanner_ident = R.Lang.of(a)
+    for la in ilooks:
+        if not (la.lead and la.negate):
+            raise AnalysisError("RE_IDENTIFIER: look-around other than a leading negative look-ahead")
+        scanner_ident = scanner_ident & ~R.Lang.of(("cat", [la.ast, SIGMA]))
+    w1, w2, n = R.compare(scanner_ident, R.Lang.of(pr.tr(("seq", e[1][1:]))) & not_push)
+    if w1 is None and w2 is None:
+        ob("RE_IDENTIFIER", "identifier", w1, w2, n, ' (including the !"PUSH" guard)')
+    else:
+        # the constant does not carry the guard: then every place that scans an identifier has to implement it
+        w1b, w2b, n = R.compare(scanner_ident & not_push, R.Lang.of(pr.tr(("seq", e[1][1:]))) & not_push)
+        ob("RE_IDENTIFIER", "identifier", w1b, w2b, n, ' (modulo the !"PUSH" guard, which each use has to implement)')
+        m = repo.mod(SCANNER)
+        for c in ast.walk(m.tree):
+            if isinstance(c, ast.Call) and ast.unparse(c.func) == "self.scan" and c.args and ast.unparse(c.args[0]) == "RE_IDENTIFIER":
+                q = qualname_of(m, c)
+                fn = repo.func(SCANNER, q)
+                scans = [ast.unparse(x.args[0]) for x in ast.walk(fn) if isinstance(x, ast.Call) and ast.unparse(x.func) == "self.scan" and x.args and x.lineno <= c.lineno]
+                guarded = "RE_PUSH" in scans and "RE_PUSH_LITERAL" in scans
+                sig = 'an identifier is scanned without the !"PUSH" guard of the meta-grammar'
+                check.oblige("TOKEN-LANG", f"{SCANNER}::{q}", 'the PUSH keywords are tried first (implements !"PUSH")' if guarded else sig, guarded,
+                             finding=Finding("TOKEN-LANG", f"{SCANNER}::{q}", sig, f"{q} scans RE_IDENTIFIER, which accepts {w1 or w2!r}; identifier = @{{ !\"PUSH\" ~ ... }} does not: `PUSHY = {{ \"a\" }}` is accepted as a rule name", {"witness": w1 or w2}))
     term = repo.func(SCANNER, "Scanner.accept_terminal")
     order = [ast.unparse(c.args[0]) for c in ast.walk(term) if isinstance(c, ast.Call) and ast.unparse(c.func) == "self.scan" and c.args]
     seen = []
